@@ -399,6 +399,16 @@ UNREPRESENTABLE = {'param_not_none', 'memid_mismatch'}
 ORDINAL_TIE_SKIP = {'duplicate_name'}
 
 
+def make_foreign(insane_decoy):
+    """make another design the working block: either a small sane one or an unfinished (insane) one"""
+    pyrtl.reset_working_block()
+    a = pyrtl.Input(3, 'decoy_a')
+    o = pyrtl.Output(3, 'decoy_o')
+    o <<= ~a
+    if insane_decoy:
+        pyrtl.WireVector(2, 'decoy_dangling')    # declared, never connected: sanity_check of the decoy fails
+
+
 def build(ctx, i):
     rng = ctx.sub_rng('design', i)
     return gen_designs.make_design(rng, wide_prob=0.1)
@@ -418,6 +428,9 @@ def run(ctx):
     for i in range(ndesigns):
         d = build(ctx, i)
         block = d.block
+        if i % 2 == 1:
+            make_foreign(insane_decoy=(i % 4 == 3))
+            ctx.count('accepted_while_not_working_block', i % 4 == 3 and 'insane decoy' or 'sane decoy')
         ok, kind = real_accepts(block)
         if ok is not True:
             ctx.spec_violation('api-built-rejected', 'API-built design rejected by sanity_check/iterator (%s)' % kind,
@@ -475,9 +488,14 @@ def run(ctx):
                     ctx.count('fault_not_applicable', fault)
                     continue
                 ctx.count('faults', fault)
+                foreign = rng.random() < 0.5
+                if foreign:
+                    make_foreign(insane_decoy=False)
+                ctx.count('fault_checked_while_not_working_block', foreign)
                 ok, kind = real_accepts(block)
                 rep = {'seed': ctx.seed, 'design': i, 'fault': fault, 'site': site, 'what': desc,
-                       'block_iterated_and_simulated_before_edit': used_before}
+                       'block_iterated_and_simulated_before_edit': used_before,
+                       'another_block_is_working_block': foreign}
                 if ok is not False:
                     ctx.spec_violation('malformed-accepted:%s:%s' % (fault, kind or 'accepted'),
                                        'malformed netlist (%s: %s) not rejected with a PyRTL error by '
